@@ -328,8 +328,12 @@ def render_and_observe(get, stubs, want_templates=False, plain_too=True):
             t.render(v=1)
             o["res"] = "noexc"
         except ZeroDivisionError:
-            rt = exceptions.RichTraceback()
-            _project(o, rt, stubs)
+            try:
+                rt = exceptions.RichTraceback()
+                _project(o, rt, stubs)
+            except Exception as e3:  # noqa -- an observation: RichTraceback itself fails on this traceback
+                o["res"] = "richtraceback-raises:" + type(e3).__name__
+                want_templates = False
             if want_templates:
                 try:
                     o["text_tmpl"] = exceptions.text_error_template().render_unicode()
@@ -603,7 +607,7 @@ def check(run):
         return int(hashlib.sha1(("%d:%s:%d" % (run.seed, salt, ci)).encode()).hexdigest()[:8], 16)
 
     seen_paths = set()
-    stride = 11 if thorough else 53
+    stride = 11 if thorough else 97
     # ---- single templates
     for ci, c in enumerate(leafs):
         nl = "\n" if c["nl"] == "lf" else "\r\n"
@@ -662,7 +666,7 @@ def check(run):
                 if isinstance(pairs, str) or not pairs or any(v != c["frames"][-1] for _, v in pairs):
                     note("linemap:%s:token-line" % fe["id"], "module lines holding %s map to %s, home is %s" % (token, pairs, c["frames"][-1]),
                          {"template": text, "path": p, "pairs": pairs, "home": c["frames"][-1]})
-        if hsh(ci, "eh") % 9 == 0 or is_sus:      # what an error_handler sees
+        if hsh(ci, "eh") % 15 == 0 or is_sus:      # what an error_handler sees
             from mako import exceptions as _ex
             seen_eh = {}
 
@@ -707,7 +711,7 @@ def check(run):
                      {"template": text, "shown": locs, "expected": c["frames"]})
     # ---- chains: top -> (hop)* -> leaf
     rng = run.rng
-    n_chain = 600 if thorough else 150
+    n_chain = 600 if thorough else 120
     for k in range(n_chain):
         depth = rng.choice([1, 1, 2])
         chain = [rng.choice(hopc) for _ in range(depth)] + [rng.choice(leafs)]
@@ -824,7 +828,7 @@ def check(run):
                     note("warning:%s:%s:%s:%s" % (fe["id"], action, clause, sig_route), "route %s: result %s shown %s; expected %s %s" % (c["route"], res, shown, want_res, want_shown),
                          {"template": text, "route": c["route"], "action": action})
     # ---- warnings
-    wstride = 5 if thorough else 17
+    wstride = 5 if thorough else 29
     for ci, c in enumerate(warnc):
         fe = fe_of(c)
         if hsh(ci, "w") % wstride and (fe["id"], c["nl"]) in seen_paths:
